@@ -758,7 +758,7 @@ func init() {
 func init() {
 	plans["C08"] = func(tier string) Plan {
 		p := Plan{ID: "C08", Level: "fault_enumeration",
-			Rule: "six scripted scenarios (create / subscribe / subscribe-or-create / push / pull-only / concurrent pushes / a transaction / REST patches of an existing and of an absent document next to client syncs - a patch answered with an error is retried after the faults; counter, list, document, map with 3 clients) are first run fault-free to count the K database " +
+			Rule: "eight scripted scenarios (two datatypes in every request; a pull of 105 operations; create / subscribe / subscribe-or-create / push / pull-only / concurrent pushes / a transaction / REST patches of an existing and of an absent document next to client syncs - a patch answered with an error is retried after the faults; counter, list, document, map with 3 clients) are first run fault-free to count the K database " +
 				"commands they issue (including the background notification + snapshot update); a fault plan is a sequence of faults, each striking the a-th command counted from the previous strike (for a crash: from the restart): " +
 				"fail = the command is answered with an error and not executed; crash = executed, reply lost, server dies; crashb = the server dies before executing it (connections closed, in-flight request answered with a " +
 				"transport error, a new service + lock registry start over the surviving database while the dead process can reach nothing any more). Enumerated: EVERY single fault (3 kinds x every k in 1..K), EVERY pair of " +
